@@ -13,6 +13,7 @@ namespace {
 
 uint64_t g_hash = 1469598103934665603ull;
 unsigned g_step = 0;
+bool g_quiet = false;       // phase callbacks make no requests of their own during this cycle
 bool g_rerequest = false;   // guards re-request the very destination under evaluation (with another payload where there is one)
 unsigned long g_calls = 0;
 void mixin(unsigned v) { g_hash ^= v; g_hash *= 1099511628211ull; ++g_calls; }
@@ -63,9 +64,9 @@ struct Scenario {
 			if (g_rerequest) { g_rerequest = false; Req<P>::change(c, static_cast<ffsm2::StateID>(I), static_cast<int>(g_step) | 1); return; } if ((g_step + I) % 5 == 0) c.cancelPendingTransition(); else if ((g_step + I) % 7 == 0) Req<P>::change(c, static_cast<ffsm2::StateID>((I + 2) % 3), static_cast<int>(g_step)); }
 		void enter(PlanControl& c) { observe(c, 110 + I); mixin(c.currentTransition().destination); mixin(PayOf<P>::of(c.currentTransition())); }
 		void reenter(PlanControl& c) { observe(c, 120 + I); }
-		void preUpdate(FullControl& c) { observe(c, 130 + I); if (g_step % 11 == 3) Req<P>::change(c, static_cast<ffsm2::StateID>((I + 1) % 3), static_cast<int>(g_step)); }
-		void update(FullControl& c) { observe(c, 140 + I); if (g_step % 3 == static_cast<unsigned>(I)) Req<P>::change(c, static_cast<ffsm2::StateID>((I + 1) % 3), static_cast<int>(g_step)); }
-		void postUpdate(FullControl& c) { observe(c, 150 + I); if (g_step % 13 == 5) Req<P>::change(c, static_cast<ffsm2::StateID>(I), static_cast<int>(g_step)); }
+		void preUpdate(FullControl& c) { observe(c, 130 + I); if (!g_quiet && g_step % 11 == 3) Req<P>::change(c, static_cast<ffsm2::StateID>((I + 1) % 3), static_cast<int>(g_step)); }
+		void update(FullControl& c) { observe(c, 140 + I); if (!g_quiet && g_step % 3 == static_cast<unsigned>(I)) Req<P>::change(c, static_cast<ffsm2::StateID>((I + 1) % 3), static_cast<int>(g_step)); }
+		void postUpdate(FullControl& c) { observe(c, 150 + I); if (!g_quiet && g_step % 13 == 5) Req<P>::change(c, static_cast<ffsm2::StateID>(I), static_cast<int>(g_step)); }
 		void preReact(const Ev& e, FullControl& c) { observe(c, 160 + I); mixin(static_cast<unsigned>(e.v)); }
 		void react(const Ev& e, FullControl& c) { observe(c, 170 + I); if (e.v % 2 == 0) Req<P>::change(c, static_cast<ffsm2::StateID>((I + 2) % 3), e.v); }
 		void postReact(const Ev& e, FullControl& c) { observe(c, 180 + I); mixin(static_cast<unsigned>(e.v)); }
@@ -87,6 +88,8 @@ struct Scenario {
 			case 4: { Qu q{0}; m.query(q); mixin(static_cast<unsigned>(q.v)); } break;
 			default: m.update(); m.update(); break;
 			}
+			if (g_step % 10 == 7) {   // a request from outside (with a payload where the configuration has one) whose destination's entry guard asks for the same destination again
+				g_rerequest = true; g_quiet = true; ExtReq<P>::change(m, static_cast<ffsm2::StateID>((g_step / 10) % 3), static_cast<int>(g_step) * 2); m.update(); g_rerequest = false; g_quiet = false; }
 			for (ffsm2::StateID k = 0; k < 3; ++k) mixin(m.isActive(k) ? 1u : 0u);
 		}
 	}
